@@ -666,7 +666,10 @@ def replay(ctx, path):
     else:
         raise core.MachineryError('replay without message bytes: re-run the check (corpus files are read from the repo)')
     obs = V.observe(b)
-    model = drv.batch([treq, views_request(rep['ids'], obs, b)])[1]
+    req = views_request(rep['ids'], obs, b)
+    if 'n_subsets' in rep:          # w6-f24: a REFUSED message has no `compressed` / `n_subsets` in its observation
+        req['compressed'], req['n'] = bool(rep.get('compressed')), rep['n_subsets']
+    model = drv.batch([treq, req])[1]
     bad = oracle(obs)
     why = correspondence(obs, model)
     print('replay: oracle %s; correspondence %s' % (bad or 'holds', why or 'agrees'))
